@@ -84,7 +84,7 @@ func genVecQueries(t *rapid.T, s *gen.Schema, want *spec.Obs, nDocs int, n int) 
 					live = append(live, uint64(d))
 				}
 			}
-			switch rapid.SampledFrom([]string{"lt-half", "gt-half", "all", "single", "empty"}).Draw(t, ql+"elig") {
+			switch rapid.SampledFrom([]string{"lt-half", "gt-half", "all", "single", "empty", "gt-half-prefix", "gt-half-suffix"}).Draw(t, ql+"elig") {
 			case "all":
 				q.Eligible = live
 			case "empty":
@@ -104,6 +104,10 @@ func genVecQueries(t *rapid.T, s *gen.Schema, want *spec.Obs, nDocs int, n int) 
 						q.Eligible = append(q.Eligible, d)
 					}
 				}
+			case "gt-half-prefix": // the first three quarters; differs from the other > half shapes
+				q.Eligible = append(q.Eligible, live[:len(live)*3/4]...)
+			case "gt-half-suffix":
+				q.Eligible = append(q.Eligible, live[len(live)/4:]...)
 			}
 		}
 		if !q.Filter && gen.Chance(t, ql+"openFilter", 35) {
